@@ -267,6 +267,14 @@ func zzBulk(maxRows int) {
 	db := zzverif.OpenFakeDB()
 	which := zzverif.Choice("dialect", 3)
 	rows := zzverif.Choice("rows", maxRows+1)
+	if maxRows == 999 {
+		// quick variant: SQLite, 1000 rows
+		zzverif.Assume(which == 0)
+		rows = 1000
+	} else if maxRows >= 1000 {
+		// a batch beyond any per-statement parameter limit a dialect has (999 for SQLite)
+		rows = []int{1000, 1200}[zzverif.Choice("rows", 2)]
+	}
 	cols := 1 + zzverif.Choice("cols", 2)
 	columns := []string{"a", "b"}[:cols]
 	var values [][]interface{}
@@ -305,6 +313,10 @@ func zzBulk(maxRows int) {
 }
 
 func VerifC14_BulkInsert() { zzBulk(3) }
+
+// batches larger than the per-statement parameter limits of the dialects
+func VerifC14_BulkInsertLarge()  { zzBulk(1000) }
+func VerifC14_BulkInsertSQLite1000() { zzBulk(999) }
 
 // vacuity twin: an implementation-independent wrong claim must be refuted
 func VerifC14_Twin() {
